@@ -287,8 +287,25 @@ pub fn c06(cfg: &J) {
             })
         })
         .collect();
+    // cfg.format = name of a HELD flush guard that another thread Debug-formats (`{:?}`) while the
+    // drops run (the guard stays with main, which joins the formatter before dropping it)
+    let formatter = cfg["format"].as_str().map(|name| {
+        let addr = match objs.get(name) {
+            Some(Obj::Guard(g)) => g as *const metrique::FlushGuard as usize,
+            _ => panic!("HARNESS: format needs a held flush guard, {name} is none"),
+        };
+        thread::spawn(move || {
+            // SAFETY: the guard lives in `objs` on main's stack until after this thread is joined
+            let g: &metrique::FlushGuard = unsafe { &*(addr as *const metrique::FlushGuard) };
+            let text = format!("{g:?}");
+            assert!(!text.is_empty());
+        })
+    });
     for h in handles {
         h.join().unwrap();
+    }
+    if let Some(f) = formatter {
+        f.join().unwrap();
     }
     check_timely(&flags, &sink, &roles);
     for name in &hold {
